@@ -2,8 +2,6 @@ package main
 
 func init() {
 	propRules["C12"] = func(c *Ctx) { ribFamily(c, famSel{nilGuard: true, validate: true}) }
-	propRules["C02"] = func(c *Ctx) { ribFamily(c, famSel{gate: true}) }
 	propRules["C01"] = func(c *Ctx) { ribFamily(c, famSel{mergeTotal: true, noTrace: true, delIdem: true, keyAgree: true}) }
 	propRules["C16"] = func(c *Ctx) { ribFamily(c, famSel{hookAdd: true, hookDel: true, hookFlush: true}) }
-	propRules["C03"] = func(c *Ctx) { ribFamily(c, famSel{delGate: true}) }
 }
